@@ -75,6 +75,7 @@ package set
 //@   ensures[C06] s.M[key] == old(s.M[key]) && has(s.M, key) == old(has(s.M, key))
 //@   modifies entries(s.M[key])
 //@   safety[C06,C20] panics
+//@   at return: assert[C06] old(has(s.M, key)) ==> result == nil
 //@   loops 1
 //@   loop 1: modifies entries(s.M[key])
 //@   loop 1: invariant -1 <= rangeindex && rangeindex < len(items) && s == old(s) && key == old(key) && items == old(items) && has(s.M, key)
